@@ -538,7 +538,7 @@ example : ∃ img, Xcmp.compile demoIp = .ok img := by
      proc main() is
      { n := 0; c := get(0);
        while c ~= 10 do { put(c, 0); n := n + 1; c := get(0) };
-       if 2(0) = 66 then n := n + 100 else skip;
+       if 2(0) = 67 - 1 then n := n + 100 else skip;
        while 255 ~= get(0) do n := n + 1000;
        0(n) }` -/
 def demoIn : X.Program :=
@@ -549,7 +549,8 @@ def demoIn : X.Program :=
                       .while (.bin .ne (.name "c") (.num 10))
                         (.seq [.call "put" [.name "c", .num 0], .assign "n" (.bin .plus (.name "n") (.num 1)),
                                .assign "c" (.call "get" [.num 0])]),
-                      .ite (.bin .eq (.syscall 2 [.num 0]) (.num 66)) (.assign "n" (.bin .plus (.name "n") (.num 100))) .skip,
+                      .ite (.bin .eq (.syscall 2 [.num 0]) (.bin .minus (.num 67) (.num 1)))
+                        (.assign "n" (.bin .plus (.name "n") (.num 100))) .skip,
                       .while (.bin .ne (.num 255) (.call "get" [.num 0])) (.assign "n" (.bin .plus (.name "n") (.num 1000))),
                       .syscall 0 [.name "n"]] }] }
 
